@@ -39,7 +39,7 @@ CONSTANTS Threads,      \* thread names (strings)
           MaxOps,       \* calls per thread
           MaxSteps,     \* calls per behaviour
           Pool,         \* number of value ids
-          Sequential    \* TRUE: a call runs to completion before the next call starts (behaviours that are replayed)
+          SeqPrefix     \* the first SeqPrefix calls run alone, one whole call at a time (>= MaxSteps: the sequential behaviours that are replayed)
 
 Nil     == "nil"
 Missing == "missing"
@@ -302,7 +302,7 @@ Step(t, op, k, c, f) == hist' = Append(hist, [t |-> t, op |-> op, k |-> k, c |->
 
 Start(t, op, k, c, f) ==
   /\ pc[t] = "idle" /\ nops[t] < MaxOps /\ Len(hist) < MaxSteps
-  /\ Sequential => \A u \in Threads : pc[u] = "idle"
+  /\ Len(hist) <= SeqPrefix => \A u \in Threads : pc[u] = "idle"
   /\ ImplStart(t, op, k, c, f) /\ GhostBegin(op, k, c)
   /\ nops' = [nops EXCEPT ![t] = @ + 1] /\ Step(t, op, k, c, f)
   /\ UNCHANGED <<conf, stale, dev>>
